@@ -67,4 +67,12 @@ CHECKS = {
         "require_classes": ["parse:text", "parse:utf8-error", "parse:missing-nul"],
         "assumptions": ["texts with an interior NUL that do not end in NUL: only the read-back rule is checked (the property does not state how they are stored)"],
     },
+    "C18": {
+        "bin": "c18",
+        "cfgs": {"quick": ["dD", "rD"], "thorough": ["dD", "rD", "rN"]},
+        "technique": MC + "; all iterator call histories up to a depth",
+        "rule": "canonical body: one leaf per (desc_size, desc_version, map length), all combinations; history body: one leaf per (input, call sequence). states: inputs by construction plus (input, sorted model cursors) after every history step. non-trivial = valid combination, or desc_size divides the length, or version 1; every history leaf",
+        "require_classes": ["efi:complete", "efi:refused-at-construction", "history:done"],
+        "assumptions": ["descriptor contents are byte markers (no random contents): every byte position of the 40-byte prefix is distinguishable"],
+    },
 }
